@@ -198,7 +198,7 @@ def oracle(parts, outcome, obs):
 
 
 CLAIM = {
-    "text": "Theorems C15_permutation / C15_each_once / C15_sorted_by_last_key / C15_default_address_order (Coq, closed, generic in table and key functions): for every table and every -o argument list the printed order is a permutation of the table, lists each address exactly once, is monotone in the key of the last recognised letter (descending for the reversing letters), and is in strictly ascending address order when no letter is recognised. Tied to the code through the built CLI: row sequence of every printed frame vs the model's print order and vs the oracle, on tables with ties, blanks, negative vertical rates and both hemispheres, for every letter, letter pairs, random strings with unknown letters and several -o arguments.",
+    "text": "Theorems C15_permutation / C15_each_once / C15_sorted_by_last_key / C15_default_address_order, C15_letters_sorted / C15_letter_table_complete (the property's own letter table s, a/A, v/V, N/S, W/E, d/D, c/C with keys and directions, written without the model's sort actions), C15_ties_keep_previous_order / C15_ties_reversed_for_A_D, C15_frame_rows / C15_frame_row_count / C15_reachable_frame_lists_each_once / C15_cli_every_refresh_lists_each_once (every refresh printed while reading any byte stream lists each aircraft tracked at that moment exactly once) (Coq, closed, generic in table and key functions): for every table and every -o argument list the printed order is a permutation of the table, lists each address exactly once, is monotone in the key of the last recognised letter (descending for the reversing letters), and is in strictly ascending address order when no letter is recognised. Tied to the code through the built CLI: row sequence of every printed frame vs the model's print order and vs the oracle, on tables with ties, blanks, negative vertical rates and both hemispheres, for every letter, letter pairs, random strings with unknown letters and several -o arguments.",
     "note": "For N/S/W/E/d/D the key is the whole-degree / whole-km value the program compares; the distance keys are only compared by the oracle (the model has no haversine).",
     "technique": "Coq proof: stable insertion sort is a sorting permutation, fold of sorts is sorted by the last effective one; CLI differential runs + oracle",
 }
